@@ -116,6 +116,17 @@ def run(prog: Program, col: Collector, tier: str, refs: Optional[Refs] = None, c
         ok_r = len(resh) == 2 and any(f"[:len({K})]" in x.replace(" ", "") for x in pre) and any(f"[:len({K})+1]" in x.replace(" ", "") for x in pre)
         col.check(ok_r, construct + "::reshape", f"white_vec keeps len({K}) leading axes, prec_sqrt len({K}) + 1", f"the reshapes keep {pre}: the reduced batch axes are not the ones merged into the rank axis",
                   f.loc(resh[0]) if resh else f.loc())
+        # the positions appended to the two lists number the BATCH axes, i.e. count the integer inputs only: an enumerate() index over all of
+        # self.inputs also counts the real inputs, which have no axis of their own
+        pos_names = {c.args[0].id for c in ast.walk(f.node) if isinstance(c, ast.Call) and isinstance(c.func, ast.Attribute) and c.func.attr == "append"
+                     and isinstance(c.func.value, ast.Name) and c.func.value.id in (K, R) and c.args and isinstance(c.args[0], ast.Name)}
+        for pn in sorted(pos_names):
+            enum_loops = [lp for lp in ast.walk(f.node) if isinstance(lp, ast.For) and isinstance(lp.iter, ast.Call) and norm(lp.iter.func) == "enumerate" and isinstance(lp.target, ast.Tuple)
+                          and norm(lp.target.elts[0]) == pn and any(isinstance(y, ast.Attribute) and y.attr == "inputs" for y in ast.walk(lp.iter))]
+            counted = [st for st in ast.walk(f.node) if isinstance(st, ast.Assign) and norm(st.targets[0]) == pn and isinstance(st.value, ast.Call) and norm(st.value.func) == "len"]
+            col.check(not enum_loops or bool(counted), construct + f"::position `{pn}`", "axis positions count the integer inputs only",
+                      f"`{pn}` is the enumerate() index over all inputs of the Gaussian, real ones included, but white_vec / prec_sqrt have one leading axis per INTEGER input: with a real "
+                      "input in front of an integer one the permutation names an axis twice or out of range, and the plate sum does not complete", f.loc(enum_loops[0]) if enum_loops else f.loc())
         raises = [r for r in ast.walk(f.node) if isinstance(r, ast.Raise) and any(isinstance(a, ast.If) and rv in norm(a.test) and "in" in norm(a.test) for a in f.module.ancestors(r))]
         col.check(bool(raises), construct + "::real variables", "summing along a real input raises", "a real input among the reduced variables of a plate sum is not rejected", f.loc())
     # ---------------------------------------------------------------- R13.5 integration is linear: integer variables are summed with add
